@@ -76,17 +76,18 @@ Section Side.
   Variables (init hi : N) (rel : N -> bool).
 
   Definition call_ok (c : call) : Prop :=
-    c_vol c = meta0 (c_meta c) /\ sorted (c_hs c) /\
+    c_vol c = resume init (c_meta c) /\ sorted (c_hs c) /\
     forall x, In x (c_hs c) ->
       c_vol c < x <= hi /\ init <= x /\ rel x = true /\
       forall m, c_vol c < m < x -> rel m = true -> In m (c_hs c).
 
   Record SInv (sd : side) : Prop := {
-    si_meta : vol sd = meta0 (meta sd);
+    si_meta : vol sd = resume init (meta sd);
+    si_base : base init <= vol sd;
     si_le : vol sd <= hi;
-    si_sound : forall m, 1 <= m <= vol sd -> rel m = true -> In m (acc sd);
+    si_sound : forall m, init <= m <= vol sd -> rel m = true -> In m (acc sd);
     si_closed : forall x, In x (acc sd) ->
-        init <= x <= hi /\ rel x = true /\ forall m, 1 <= m < x -> rel m = true -> In m (acc sd);
+        init <= x <= hi /\ rel x = true /\ forall m, init <= m < x -> rel m = true -> In m (acc sd);
     si_calls : Forall call_ok (calls sd) }.
 
   (* what submitToDA still has to submit: exactly the relevant heights above the watermark, in order *)
@@ -98,7 +99,7 @@ Section Side.
   Lemma log_call_inv : forall rem o sd, SInv sd -> RemOK rem sd ->
     SInv (log_call rem o sd) /\ RemOK rem (log_call rem o sd).
   Proof.
-    intros rem o sd I R. destruct I as [Im Il Is Ic Ik]. destruct R as [Rs Ri Ra].
+    intros rem o sd I R. destruct I as [Im Ib Il Is Ic Ik]. destruct R as [Rs Ri Ra].
     set (a := N.to_nat (da_accepts o (N.of_nat (length rem)))).
     assert (Hsplit : rem = firstn a rem ++ skipn a rem) by (symmetry; apply firstn_skipn).
     assert (Hsa : sorted (firstn a rem ++ skipn a rem)) by (rewrite <- Hsplit; exact Rs).
@@ -133,7 +134,7 @@ Section Side.
     let sd1 := log_call rem (OAccept k) sd in
     let sd2 := set_last (last_height (firstn (N.to_nat cnt) rem)) sd1 in
     SInv sd2 /\ RemOK (skipn (N.to_nat cnt) rem) sd2 /\
-    (cnt = N.of_nat (length rem) -> forall m, 1 <= m <= hi -> rel m = true -> In m (acc sd2)) /\
+    (cnt = N.of_nat (length rem) -> forall m, init <= m <= hi -> rel m = true -> In m (acc sd2)) /\
     (cnt = N.of_nat (length rem) -> rem <> [] -> vol sd2 = last rem 0).
   Proof.
     intros rem k sd cnt I R Hc sd1 sd2.
@@ -180,13 +181,15 @@ Section Side.
       assert (Hfirst : forall m, In m rem -> m <= v' -> In m (f0 :: fr)).
       { intros m Hin Hle. rewrite Hsplit in Hin. apply in_app_or in Hin. destruct Hin as [|Hin]; auto.
         specialize (Hlt _ _ Hv'in Hin). lia. }
-      assert (Hsound : forall m, 1 <= m <= v' -> rel m = true -> In m (acc sd1)).
+      assert (Hsound : forall m, init <= m <= v' -> rel m = true -> In m (acc sd1)).
       { intros m Hm Hrm. destruct (N.le_gt_cases m (vol sd1)) as [Hle|Hgt].
         - apply (si_sound _ I1); auto. lia.
         - rewrite Hacc. apply in_or_app. left. apply -> in_rev. apply Hfirst; try lia.
           apply Ra; auto. lia. }
       split; [|split; [|split]].
-      + constructor; cbn [vol meta acc calls]; auto; try lia.
+      + pose proof (si_base _ I1) as Hb1.
+        constructor; cbn [vol meta acc calls]; auto; try lia.
+        * unfold resume, meta0. destruct (v' =? 0) eqn:E0; lia.
         * apply (si_closed _ I1).
         * apply (si_calls _ I1).
       + constructor; cbn [vol]; auto.
@@ -314,12 +317,53 @@ Proof.
   destruct (made_call r); [etransitivity; [exact Mt | apply IH] | exact Mt].
 Qed.
 
+(* anything that log_call and set_last preserve is preserved by the loops *)
+Section Pres.
+  Variable P : side -> Prop.
+  Hypothesis P_log : forall rem o sd, P sd -> P (log_call rem o sd).
+  Hypothesis P_set : forall n sd, P sd -> P (set_last n sd).
+
+  Lemma submit_pres : forall c fuel b rem sc sd el, P sd -> P (fst (fst (fst (submit c fuel b rem sc sd el)))).
+  Proof.
+    induction fuel as [|f IH]; intros b rem sc sd el H; cbn [submit]; [exact H|].
+    destruct sc as [|o sc']; [exact H|].
+    destruct (helper_status o (N.of_nat (length rem))) as [st cnt]; destruct st;
+      try (apply IH; apply P_log; exact H); try (cbn [fst]; apply P_log; exact H).
+    destruct (cnt =? N.of_nat (length rem)); [cbn [fst]|apply IH]; apply P_set, P_log, H.
+  Qed.
+
+  Lemma tick_pres : forall c o init hi sc sd, P sd -> P (fst (fst (fst (tick_side c o init hi sc sd)))).
+  Proof.
+    intros. unfold tick_side.
+    destruct (vol sd =? hi); [exact H|].
+    destruct (pending_range init hi (vol sd)); [|exact H].
+    destruct (match o with Some f => filter f l | None => l end) eqn:E; [exact H|].
+    apply submit_pres, H.
+  Qed.
+
+  Lemma loop_pres : forall c o init hi fuel sc sd, P sd -> P (loop_side c o init hi fuel sc sd).
+  Proof.
+    induction fuel as [|f IH]; intros sc sd H; cbn [loop_side]; [exact H|].
+    destruct sc as [|o0 sc0]; [exact H|].
+    pose proof (tick_pres c o init hi (o0 :: sc0) sd H) as Ht.
+    destruct (tick_side c o init hi (o0 :: sc0) sd) as [[[sd' sc'] r] el]. cbn [fst] in Ht.
+    destruct (made_call r); [apply IH|]; exact Ht.
+  Qed.
+End Pres.
+
+Lemma recorded_stays : forall sd, meta0 (meta sd) <> 0 ->
+  (forall rem o, meta0 (meta (log_call rem o sd)) <> 0) /\ (forall n, meta0 (meta (set_last n sd)) <> 0).
+Proof.
+  intros sd H. split; [intros; exact H|].
+  intros n. unfold set_last. destruct (vol sd <? n) eqn:E; [cbn [meta meta0]; lia | exact H].
+Qed.
+
 (* a longer chain: the invariant is stable *)
 Lemma sinv_grow : forall init hi hi' rel rel' sd,
   hi <= hi' -> (forall m, m <= hi -> rel' m = rel m) ->
   SInv init hi rel sd -> SInv init hi' rel' sd.
 Proof.
-  intros init hi hi' rel rel' sd Hle Hrel [Im Il Is Ic Ik].
+  intros init hi hi' rel rel' sd Hle Hrel [Im Ib Il Is Ic Ik].
   constructor; auto; try lia.
   - intros m Hm Hr. apply Is; auto. rewrite <- Hrel; auto. lia.
   - intros x Hx. destruct (Ic _ Hx) as (H1 & H2 & H3). repeat split; try lia.
@@ -331,7 +375,7 @@ Proof.
     + intros m Hm Hr. apply D4; auto. rewrite <- Hrel; auto. lia.
 Qed.
 
-Lemma sinv_reinit : forall init hi rel sd, SInv init hi rel sd -> reinit sd = sd.
+Lemma sinv_reinit : forall init hi rel sd, SInv init hi rel sd -> reinit init sd = sd.
 Proof. intros init hi rel [v m a cs] I. unfold reinit. cbn. f_equal. symmetry. exact (si_meta _ _ _ _ I). Qed.
 
 (* ---- the node ------------------------------------------------------------------------------------ *)
@@ -354,13 +398,16 @@ Lemma inv_set : forall k s sd, Inv s ->
   SInv (s_init s) (height s) (relf (rel_of k s)) sd -> Inv (set_side k s sd).
 Proof. intros [] s sd (H1 & Ih & Id) I; rewrite relf_rel_of in I; (split; [|split]); assumption. Qed.
 
-Lemma empty_sinv : forall init hi rel, SInv init hi rel empty_side.
+Lemma boot_sinv : forall init rel, 1 <= init -> SInv init (init - 1 + 0) rel (boot_side init).
 Proof.
-  intros. constructor; cbn; auto; try lia.
+  intros init rel H1.
+  assert (Hb : base init = init - 1) by (unfold base; destruct (1 <? init) eqn:E; lia).
+  constructor; cbn [boot_side vol meta acc calls]; unfold resume; cbn [meta0 N.eqb]; auto; try lia.
+  intros x [].
 Qed.
 
 Lemma inv_boot : forall init, 1 <= init -> Inv (boot init).
-Proof. intros; split; [assumption|split; apply empty_sinv]. Qed.
+Proof. intros; split; [assumption|split; apply boot_sinv; assumption]. Qed.
 
 Lemma nonempty_at_app : forall init chain b m,
   1 <= init -> m <= init - 1 + N.of_nat (length chain) -> nonempty_at init (chain ++ [b]) m = nonempty_at init chain m.
@@ -399,6 +446,22 @@ Proof. intros. apply inv_run_from, inv_boot. assumption. Qed.
 Lemma run_app : forall c init h1 h2, run c init (h1 ++ h2) = run_from c (run c init h1) h2.
 Proof. intros. unfold run, run_from. apply fold_left_app. Qed.
 
+Lemma step_init : forall c s i, s_init (fst (step c s i)) = s_init s.
+Proof.
+  intros c s i. destruct i as [b|k sc|k sc|]; cbn [step]; auto.
+  - destruct (tick_side _ _ _ _ _ _) as [[[sd' sc'] r] el]. destruct k; reflexivity.
+  - destruct k; reflexivity.
+Qed.
+
+Lemma run_from_init : forall c h s, s_init (run_from c s h) = s_init s.
+Proof.
+  intros c h. unfold run_from. induction h as [|i h IH]; intros s; cbn [fold_left]; auto.
+  rewrite IH. apply step_init.
+Qed.
+
+Lemma run_init : forall c init h, s_init (run c init h) = init.
+Proof. intros. unfold run. rewrite run_from_init. reflexivity. Qed.
+
 (* ---- watermark soundness, order, no skipping (C06, safety) ----------------------------------------- *)
 
 Definition strictly_increasing (l : list N) : Prop := StronglySorted N.lt l.
@@ -411,28 +474,34 @@ Proof. intros [] s m; cbn; unfold rel_h; tauto. Qed.
 
 Definition watermark_sound_stmt (s : state) (k : kind) : Prop :=
   let sd := get_side k s in
-  (* the in-memory watermark equals the recorded one (absent = 0) *)
-  vol sd = meta0 (meta sd) /\
+  (* the in-memory watermark is the one a restart resumes from: the recorded one, or initial height - 1 while
+     nothing is recorded *)
+  vol sd = resume (s_init s) (meta sd) /\ vol sd = N.max (meta0 (meta sd)) (s_init s - 1) /\
   (* it never exceeds the chain height *)
   vol sd <= height s /\
   (* every (relevant) height up to it has its blob accepted by the DA layer *)
-  (forall m, 1 <= m <= vol sd -> relevant k s m -> In m (acc sd)) /\
+  (forall m, s_init s <= m <= vol sd -> relevant k s m -> In m (acc sd)) /\
   (* the DA layer holds only committed blocks, and never a height whose (relevant) predecessors it lacks *)
   (forall x, In x (acc sd) -> s_init s <= x <= height s /\ relevant k s x /\
-             forall m, 1 <= m < x -> relevant k s m -> In m (acc sd)) /\
-  (* every submit call ever made: was made with in-memory = recorded watermark; carries strictly increasing
+             forall m, s_init s <= m < x -> relevant k s m -> In m (acc sd)) /\
+  (* every submit call ever made: was made with the in-memory watermark a restart would resume from; carries strictly increasing
      heights, all above the watermark, all of committed blocks; and skips no relevant height above the
      watermark (so it starts at the first relevant height above it) *)
   (forall cl, In cl (calls sd) ->
-     c_vol cl = meta0 (c_meta cl) /\ strictly_increasing (c_hs cl) /\
+     c_vol cl = resume (s_init s) (c_meta cl) /\ strictly_increasing (c_hs cl) /\
      forall x, In x (c_hs cl) ->
        c_vol cl < x <= height s /\ s_init s <= x /\ relevant k s x /\
        forall m, c_vol cl < m < x -> relevant k s m -> In m (c_hs cl)).
 
 Lemma watermark_sound : forall c init h k, 1 <= init -> watermark_sound_stmt (run c init h) k.
 Proof.
-  intros c init h k H1. pose proof (inv_get k _ (inv_run c init h H1)) as [Im Il Is Ic Ik].
-  unfold watermark_sound_stmt. cbv zeta. repeat split; auto.
+  intros c init h k H1. pose proof (inv_get k _ (inv_run c init h H1)) as [Im Ib Il Is Ic Ik].
+  unfold watermark_sound_stmt. cbv zeta.
+  assert (Hi : s_init (run c init h) = init) by apply run_init.
+  split; [exact Im|]. split.
+  { rewrite Hi in *. rewrite Im in Ib |- *. unfold resume, base in *.
+    destruct (meta0 (meta (get_side k (run c init h))) =? 0) eqn:E0; destruct (1 <? init) eqn:E1; lia. }
+  repeat split; auto.
   - intros m Hm Hr. apply Is; auto. apply relevant_rel; auto.
   - apply (Ic _ H).
   - apply (Ic _ H).
@@ -469,6 +538,32 @@ Proof.
   etransitivity; [apply (step_mono c s i k I)|]. apply IH. apply inv_step, I.
 Qed.
 
+Lemma step_recorded : forall c s i k, Inv s ->
+  meta0 (meta (get_side k s)) <> 0 -> meta0 (meta (get_side k (fst (step c s i)))) <> 0.
+Proof.
+  intros c s i k I H.
+  assert (PL : forall rem o sd, meta0 (meta sd) <> 0 -> meta0 (meta (log_call rem o sd)) <> 0)
+    by (intros; apply recorded_stays; auto).
+  assert (PS : forall n sd, meta0 (meta sd) <> 0 -> meta0 (meta (set_last n sd)) <> 0)
+    by (intros; apply recorded_stays; auto).
+  destruct i as [b|k' sc|k' sc|]; cbn [step fst].
+  - destruct k; exact H.
+  - pose proof (tick_pres _ PL PS c (rel_of k' s) (s_init s) (height s) sc (get_side k' s)) as M.
+    destruct (tick_side c (rel_of k' s) (s_init s) (height s) sc (get_side k' s)) as [[[sd' sc'] r] el].
+    cbn [fst] in *. destruct k, k'; cbn [get_side set_side s_h s_d] in *; auto.
+  - pose proof (loop_pres _ PL PS c (rel_of k' s) (s_init s) (height s) (S (length sc)) sc (get_side k' s)) as M.
+    destruct k, k'; cbn [get_side set_side s_h s_d] in *; auto.
+  - destruct I as (H1 & Ih & Id). rewrite (sinv_reinit _ _ _ _ Ih), (sinv_reinit _ _ _ _ Id).
+    destruct k; exact H.
+Qed.
+
+Lemma run_from_recorded : forall c h s k, Inv s ->
+  meta0 (meta (get_side k s)) <> 0 -> meta0 (meta (get_side k (run_from c s h))) <> 0.
+Proof.
+  induction h as [|i h IH]; intros s k I H; cbn; [exact H|].
+  apply IH; [apply inv_step, I | apply step_recorded; assumption].
+Qed.
+
 Lemma watermark_monotone : forall c init h1 h2 k, 1 <= init ->
   vol (get_side k (run c init h1)) <= vol (get_side k (run c init (h1 ++ h2))) /\
   meta0 (meta (get_side k (run c init h1))) <= meta0 (meta (get_side k (run c init (h1 ++ h2)))).
@@ -476,8 +571,18 @@ Proof.
   intros c init h1 h2 k H1.
   pose proof (inv_get k _ (inv_run c init h1 H1)) as I1.
   pose proof (inv_get k _ (inv_run c init (h1 ++ h2) H1)) as I2.
-  rewrite <- (si_meta _ _ _ _ I1), <- (si_meta _ _ _ _ I2).
-  rewrite run_app. split; apply run_from_mono, inv_run, H1.
+  assert (Hm : forall sd hi rel, SInv init hi rel sd -> meta0 (meta sd) = 0 \/ meta0 (meta sd) = vol sd).
+  { intros sd hi rel I. rewrite (si_meta _ _ _ _ I). unfold resume.
+    destruct (meta0 (meta sd) =? 0) eqn:E; [left; lia | right; reflexivity]. }
+  assert (Hi1 : s_init (run c init h1) = init) by apply run_init.
+  assert (Hi2 : s_init (run c init (h1 ++ h2)) = init) by apply run_init.
+  rewrite Hi1 in I1. rewrite Hi2 in I2.
+  pose proof (run_from_mono c h2 _ k (inv_run c init h1 H1)) as Mv. rewrite <- run_app in Mv.
+  split; [exact Mv|].
+  destruct (N.eq_dec (meta0 (meta (get_side k (run c init h1)))) 0) as [Z|Hnz]; [lia|].
+  pose proof (run_from_recorded c h2 _ k (inv_run c init h1 H1) Hnz) as Hp. rewrite <- run_app in Hp.
+  destruct (Hm _ _ _ I1) as [E1|E1]; [lia|].
+  destruct (Hm _ _ _ I2) as [E2|E2]; lia.
 Qed.
 
 (* ---- liveness under an accepting DA layer (guard: initial height 1), and its failure above 1 ---------- *)
@@ -511,7 +616,7 @@ Section Live.
     let out := submit c (S fuel) b rem (OAccept k :: sc) sd el in
     snd (fst out) = RDone /\ SInv init hi rel (fst (fst (fst out))) /\
     vol (fst (fst (fst out))) = last rem 0 /\
-    forall m, 1 <= m <= hi -> rel m = true -> In m (acc (fst (fst (fst out)))).
+    forall m, init <= m <= hi -> rel m = true -> In m (acc (fst (fst (fst out)))).
   Proof.
     intros c fuel b rem k sc sd el I R Hne Hk out.
     assert (Hn : N.of_nat (length rem) <> 0) by (destruct rem; [congruence | cbn [length]; lia]).
@@ -523,30 +628,31 @@ Section Live.
   Qed.
 End Live.
 
-Lemma pending_range_init1 : forall init hi v, init <= 1 -> v < hi ->
+Lemma pending_range_above_base : forall init hi v, 1 <= init -> base init <= v -> v < hi ->
   pending_range init hi v = Some (seqN (v + 1) (N.to_nat (hi - v))).
 Proof.
-  intros init hi v Hi Hv. unfold pending_range.
+  intros init hi v Hi Hb Hv. unfold pending_range.
   destruct (v =? hi) eqn:E1; [lia|]. destruct (hi <? v) eqn:E2; [lia|].
   replace (forallb _ _) with true; auto.
-  symmetry. apply forallb_forall. intros x Hx. apply in_seqN in Hx. lia.
+  symmetry. apply forallb_forall. intros x Hx. apply in_seqN in Hx.
+  unfold base in Hb. destruct (1 <? init) eqn:E; lia.
 Qed.
 
 Lemma tick_eventually : forall c o init hi fails k sc sd,
-  init <= 1 -> SInv init hi (relf o) sd ->
+  1 <= init -> SInv init hi (relf o) sd ->
   forallb nonprogress fails = true -> (length fails < max_attempts)%nat -> hi <= k ->
   let sd' := fst (fst (fst (tick_side c o init hi (fails ++ OAccept k :: sc) sd))) in
   SInv init hi (relf o) sd' /\
-  (forall m, 1 <= m <= hi -> relf o m = true -> In m (acc sd')) /\
+  (forall m, init <= m <= hi -> relf o m = true -> In m (acc sd')) /\
   (o = None -> vol sd' = hi).
 Proof.
   intros c o init hi fails k sc sd Hi I Hf Hl Hk. cbv zeta. unfold tick_side.
   destruct (vol sd =? hi) eqn:E.
   - cbn [fst]. split; auto. split; [|intros; lia].
     intros m Hm Hr. apply (si_sound _ _ _ _ I); auto. lia.
-  - pose proof (si_le _ _ _ _ I) as Hle.
-    rewrite pending_range_init1 by lia.
-    pose proof (pending_remok init hi (relf o) sd _ I (pending_range_init1 init hi (vol sd) Hi ltac:(lia))) as R.
+  - pose proof (si_le _ _ _ _ I) as Hle. pose proof (si_base _ _ _ _ I) as Hba.
+    rewrite pending_range_above_base by (auto; lia).
+    pose proof (pending_remok init hi (relf o) sd _ I (pending_range_above_base init hi (vol sd) Hi Hba ltac:(lia))) as R.
     rewrite items_filter.
     set (r := seqN (vol sd + 1) (N.to_nat (hi - vol sd))) in *.
     destruct (filter (relf o) r) as [|x0 rem0] eqn:Hfil.
@@ -572,22 +678,6 @@ Proof.
       pose proof (last_in r 0 Hne') as H2. apply in_seqN in H2. lia.
 Qed.
 
-Lemma step_init : forall c s i, s_init (fst (step c s i)) = s_init s.
-Proof.
-  intros c s i. destruct i as [b|k sc|k sc|]; cbn [step]; auto.
-  - destruct (tick_side _ _ _ _ _ _) as [[[sd' sc'] r] el]. destruct k; reflexivity.
-  - destruct k; reflexivity.
-Qed.
-
-Lemma run_from_init : forall c h s, s_init (run_from c s h) = s_init s.
-Proof.
-  intros c h. unfold run_from. induction h as [|i h IH]; intros s; cbn [fold_left]; auto.
-  rewrite IH. apply step_init.
-Qed.
-
-Lemma run_init : forall c init h, s_init (run c init h) = init.
-Proof. intros. unfold run. rewrite run_from_init. reflexivity. Qed.
-
 (* the liveness clause for one initial height: from any reachable state, one iteration against a DA layer
    that, after fewer than maxSubmitAttempts failures (of any kind, including accepted-but-acknowledgement-
    lost), accepts the whole request, leaves every committed (relevant) block on the DA layer, and the header
@@ -601,12 +691,11 @@ Definition eventually_stmt (c : cfg) (init : N) : Prop :=
     (forall m, s_init s <= m <= height s -> relevant kd s m -> In m (acc (get_side kd s'))) /\
     (kd = KHeader -> vol (s_h s') = height s).
 
-Lemma eventually_init1 : forall c, eventually_stmt c 1.
+Lemma eventually_all : forall c init, 1 <= init -> eventually_stmt c init.
 Proof.
-  intros c hist k fails sc kd Hf Hl s Hk s'.
-  assert (H1 : 1 <= 1) by lia.
-  pose proof (inv_get kd _ (inv_run c 1 hist H1)) as I. fold s in I.
-  assert (Hi : s_init s = 1) by apply run_init.
+  intros c init H1 hist k fails sc kd Hf Hl s Hk s'.
+  pose proof (inv_get kd _ (inv_run c init hist H1)) as I. fold s in I.
+  assert (Hi : s_init s = init) by apply run_init.
   pose proof (tick_eventually c (rel_of kd s) (s_init s) (height s) fails k sc (get_side kd s)
                 ltac:(lia) I Hf Hl Hk) as (I' & Hall & Hv).
   unfold s'. cbn [step].
@@ -618,64 +707,3 @@ Proof.
   - intros ->. cbn [set_side s_h]. apply Hv. reflexivity.
 Qed.
 
-(* initial height above 1: nothing is ever submitted *)
-Lemma tick_empty : forall c o init hi sc, 1 < init ->
-  exists r, tick_side c o init hi sc empty_side = (empty_side, sc, r, 0) /\ made_call r = false.
-Proof.
-  intros c o init hi sc Hi. unfold tick_side. cbn [vol empty_side].
-  destruct (0 =? hi) eqn:E; [exists RIdle; auto|].
-  unfold pending_range. rewrite E. destruct (hi <? 0) eqn:E2; [lia|].
-  destruct (N.to_nat (hi - 0)) as [|n] eqn:En; [lia|].
-  cbn [seqN forallb]. replace (init <=? 0 + 1) with false by lia. cbn [andb].
-  exists RGetErr; auto.
-Qed.
-
-Lemma loop_empty : forall c o init hi fuel sc, 1 < init ->
-  loop_side c o init hi fuel sc empty_side = empty_side.
-Proof.
-  intros c o init hi fuel sc Hi. destruct fuel as [|f]; cbn [loop_side]; auto.
-  destruct sc as [|o0 sc0]; auto.
-  destruct (tick_empty c o init hi (o0 :: sc0) Hi) as (r & -> & Hr). rewrite Hr. reflexivity.
-Qed.
-
-Definition silent (s : state) : Prop := s_h s = empty_side /\ s_d s = empty_side.
-
-Lemma silent_step : forall c s i, 1 < s_init s -> silent s -> silent (fst (step c s i)).
-Proof.
-  intros c s i Hi [Hh Hd]. destruct i as [b|k sc|k sc|]; cbn [step fst].
-  - split; assumption.
-  - destruct (tick_empty c (rel_of k s) (s_init s) (height s) sc Hi) as (r & E & _).
-    destruct k; cbn [get_side]; rewrite ?Hh, ?Hd, E; cbn [fst]; split; cbn; auto.
-  - destruct k; cbn [get_side]; rewrite ?Hh, ?Hd, loop_empty by auto; split; cbn; auto.
-  - split; cbn [s_h s_d]; rewrite ?Hh, ?Hd; reflexivity.
-Qed.
-
-Lemma silent_run_from : forall c h s, 1 < s_init s -> silent s -> silent (run_from c s h).
-Proof.
-  induction h as [|i h IH]; intros s Hi Hs; cbn; auto.
-  apply IH; [rewrite step_init; auto | apply silent_step; auto].
-Qed.
-
-Lemma never_submits : forall c init h, 1 < init ->
-  s_h (run c init h) = empty_side /\ s_d (run c init h) = empty_side.
-Proof. intros. apply silent_run_from; [exact H | split; reflexivity]. Qed.
-
-Lemma eventually_gt1_false : forall c init, 1 < init -> ~ eventually_stmt c init.
-Proof.
-  intros c init Hi H.
-  specialize (H [IPublish true] init [] [] KHeader eq_refl ltac:(unfold max_attempts; cbn; lia)).
-  cbv zeta in H.
-  assert (Hh : height (run c init [IPublish true]) = init).
-  { unfold run, run_from, height. cbn. lia. }
-  destruct (H ltac:(lia)) as [_ Hv]. specialize (Hv eq_refl).
-  rewrite Hh in Hv.
-  pose proof (never_submits c init [IPublish true; ITick KHeader ([] ++ [OAccept init])] Hi) as [Hs _].
-  unfold run, run_from in Hs, Hv. cbn [fold_left] in Hs. 
-  change (fold_left _ [IPublish true] (boot init)) with (fst (step c (boot init) (IPublish true))) in Hv.
-  rewrite Hs in Hv. cbn in Hv. lia.
-Qed.
-
-Lemma eventually_full_false : ~ (forall c init, 1 <= init -> eventually_stmt c init).
-Proof.
-  intros H. apply (eventually_gt1_false {| c_bt := 1000; c_ttl := 2 |} 2); [lia|]. apply H. lia.
-Qed.
